@@ -23,17 +23,6 @@ theorem scanner_complete (s : List Nat) (f : Fields) (h : Rfc2822 s f) (hr : Set
   unfold Parse.parse Rfc2822.ITEMS Parse.parse_internal
   simp only [this, Parse.parse_internal]
 
-theorem setterRanges_of_valid (f : Fields) (hv : Valid f) : SetterRanges f := by
-  obtain ⟨v1, v2, v3, _, v5, v6, v7, v8, _⟩ := hv
-  have hb := Chrono.Proofs.valid_bounds f.year f.month f.day v3
-  have hd1 : 1 ≤ f.day := by
-    unfold validYmd at v3
-    simp only [Bool.and_eq_true, decide_eq_true_eq] at v3
-    exact v3.1.2
-  have hMAX : Extracted.MAX_YEAR = 262142 := rfl
-  unfold OffValid at v8
-  exact ⟨hd1, hb.2, by omega, v5, v6, v7, by omega, by omega⟩
-
 /-- **reader_accepts_spec** (completeness over the grammar).  Every string of the RFC 2822 date-time
 syntax (optional day-name, one- or two-digit day, month name in any case, 2/3/4+-digit year,
 optional seconds, `1*S` wherever the standard form has a space, numeric / named / military zone,
@@ -185,9 +174,6 @@ def exObs : List Nat :=
   [32, 49, 9, 106, 85, 76, 32, 32, 48, 51, 194, 160, 49, 48, 32, 58, 227, 128, 128, 53, 50, 32, 101, 83, 116,
    32, 40, 97, 40, 98, 92, 41, 41, 32, 99, 92, 92, 41]
 def exObsFields : Fields := ⟨none, 1, 7, 2003, 10, 52, none, -18000⟩
-
-theorem ws_sp : Ws [32] := Ws.cons [32] [] (by decide) Ws.nil
-theorem ws1_sp : Ws1 [32] := ⟨[32], [], by decide, Ws.nil, rfl⟩
 
 example : Rfc2822 exStd exStdFields ∧ Valid exStdFields := by
   refine ⟨⟨[], [84, 117, 101, 44], [32], [49], [32], [74, 117, 108], [32], [50, 48, 48, 51], [32], [49, 48], [],
